@@ -11,7 +11,9 @@ a = s.index("### 8.1 Detection table")
 b = s.index("## 9. Deviations from the plan")
 n = table.count("\n| C")
 caught = table.count("| caught |")
-s = s[:a] + "### 8.1 Detection table\n\n" + f"{caught} of {n} changes are caught by the quick check of their own property " \
-    "(the others are neutralised by a later fix commit and marked so).\n\n" + table + "\n" + s[b:]
+missed = table.count("| MISSED |")
+s = s[:a] + "### 8.1 Detection table\n\n" + f"{caught} of {n} changes are caught by the quick check of their own property; " \
+    f"{missed} is/are missed (marked MISSED), {n - caught - missed} neutralised by a later fix commit (marked so).\n\n" + \
+    table + "\n" + s[b:]
 open(p, "w").write(s)
 print(n, caught)
